@@ -104,17 +104,17 @@ static void expand_case(uint64_t idx, Ctx& c) {
 }
 
 // ---------------------------------------------------------------- known-defect witnesses
-static int run_history_verbose(const std::string& hist, Ctx& c, bool verbose) {
+static int run_history_verbose(const std::string& hist, Ctx& c, bool verbose, const std::string& tag = "") {
     std::vector<VOp> h = parse_history(hist);
     World w;
-    Sink S; S.ctx = &c;
+    Sink S; S.ctx = &c; S.tag = tag;
     std::string done;
     for (size_t i = 0; i < h.size(); i++) {
         S.history = done;
         ApplyResult r = w.apply(h[i], S, true);
         if (verbose) printf("  step %zu %-36s %s\n      state: %s\n      ref:   %s\n", i, h[i].str().c_str(),
                             r == AR_OK ? "ok" : r == AR_SKIPPED ? "NOT APPLICABLE" : r == AR_GUARDED ? "GUARDED (known defect)" : "VIOLATION", w.key().c_str(), w.treeR().c_str());
-        if (r == AR_SKIPPED || r == AR_GUARDED) break;
+        if (r == AR_SKIPPED || r == AR_GUARDED || r == AR_VIOLATION) break;   // beyond a violation the two sides have diverged
         if (!done.empty()) done += ";";
         done += h[i].str();
     }
@@ -125,7 +125,7 @@ static void witness_case(uint64_t idx, Ctx& c) {
     for (int i = 0; i < 8; i++) { saved[i] = g_guard[i]; g_guard[i] = false; }
     note_inflight(idx, KNOWN_DEFECTS[idx].history);
     int before = (int)c.cnt["violations"];
-    run_history_verbose(KNOWN_DEFECTS[idx].history, c, c.verbose);
+    run_history_verbose(KNOWN_DEFECTS[idx].history, c, c.verbose, "\"known_defect\":" + jstr(KNOWN_DEFECTS[idx].id));
     c.count((int)c.cnt["violations"] != before ? std::string("witness_fails:") + KNOWN_DEFECTS[idx].id : std::string("witness_passes:") + KNOWN_DEFECTS[idx].id);
     for (int i = 0; i < 8; i++) g_guard[i] = saved[i];
 }
@@ -215,6 +215,7 @@ int main(int argc, char** argv) {
     int depth = (int)a.num("depth", 3);
     g_alpha.maxViews = (int)a.num("views", 1);
     g_alpha.maxCreated = (int)a.num("created", 1);
+    g_alpha.profile = a.str("alphabet", "full") == "reduced" ? 1 : a.str("alphabet", "full") == "medium" ? 2 : 0;
     g_alpha.attrOpsAlways = a.num("attrs-always", 0) != 0;
     xml_init(false, true);
 
@@ -227,6 +228,24 @@ int main(int argc, char** argv) {
     }
     guardJson += "}";
 
+    if (a.has("bench")) {
+        std::vector<VOp> h = parse_history(a.str("bench"));
+        int N = 20000;
+        struct timespec t1, t2;
+        clock_gettime(CLOCK_MONOTONIC, &t1);
+        for (int i = 0; i < N; i++) { World w; }
+        clock_gettime(CLOCK_MONOTONIC, &t2);
+        printf("empty world: %.1f us\n", ((t2.tv_sec - t1.tv_sec) * 1e9 + (t2.tv_nsec - t1.tv_nsec)) / 1e3 / N);
+        clock_gettime(CLOCK_MONOTONIC, &t1);
+        for (int i = 0; i < N; i++) { World* w = build_world(h, nullptr, false); delete w; }
+        clock_gettime(CLOCK_MONOTONIC, &t2);
+        printf("replay no probe: %.1f us\n", ((t2.tv_sec - t1.tv_sec) * 1e9 + (t2.tv_nsec - t1.tv_nsec)) / 1e3 / N);
+        clock_gettime(CLOCK_MONOTONIC, &t1);
+        for (int i = 0; i < N; i++) { World* w = build_world(h, nullptr, true); std::string k = w->key(); delete w; }
+        clock_gettime(CLOCK_MONOTONIC, &t2);
+        printf("replay probe+key: %.1f us\n", ((t2.tv_sec - t1.tv_sec) * 1e9 + (t2.tv_nsec - t1.tv_nsec)) / 1e3 / N);
+        return 0;
+    }
     if (a.has("history")) {
         if (a.num("noguard", 0)) for (int i = 0; i < 8; i++) g_guard[i] = false;
         Ctx c; c.verbose = true;
@@ -379,7 +398,7 @@ int main(int argc, char** argv) {
     FILE* f = fopen(out.c_str(), "w");
     if (!f) { perror("out"); return 2; }
     fprintf(f, "{\"space\":%s,\"total\":%llu,\"workers\":%d,\"wall_s\":%.3f,\"depth\":%d,\"bounds\":{\"views\":%d,\"depth\":%d,\"levels\":%s,\"known_defects_guarded\":%s},",
-            jstr("explore-v" + std::to_string(g_alpha.maxViews) + "-d" + std::to_string(depth)).c_str(), (unsigned long long)totalCases, workers, wall, depth,
+            jstr("explore-v" + std::to_string(g_alpha.maxViews) + "-d" + std::to_string(depth) + (g_alpha.profile == 1 ? "-reduced" : g_alpha.profile == 2 ? "-medium" : "-full")).c_str(), (unsigned long long)totalCases, workers, wall, depth,
             g_alpha.maxViews, depth, levelsJson.c_str(), guardJson.c_str());
     fprintf(f, "\"counters\":{");
     bool first = true;
